@@ -275,15 +275,22 @@ class BalancingLearner(BaseLearner):
         if not tell_pending:
             caches = (self._ask_cache, self._loss, self._pending_loss)
             self._ask_cache, self._loss, self._pending_loss = map(dict, caches)
+            if self._strategy == "cycle":
+                # Look up the position in the cycle (and complete the turn).
+                position = next(self._cycle)
+                for _ in range(len(self.learners) - 1):
+                    next(self._cycle)
             try:
                 with restore(*self.learners):
                     return self._ask_and_tell(n)
             finally:
                 # The children are back in their old state: so are the caches
-                # and the position in the cycle.
+                # and the position in the cycle, also when the ask failed
+                # after fewer than n steps.
                 self._ask_cache, self._loss, self._pending_loss = caches
                 if self._strategy == "cycle":
-                    for _ in range(-n % len(self.learners)):
+                    current = next(self._cycle)
+                    for _ in range((position - current - 1) % len(self.learners)):
                         next(self._cycle)
         else:
             return self._ask_and_tell(n)
